@@ -28,6 +28,8 @@
 EXTENDS Naturals, Sequences, FiniteSets, TLC
 
 CONSTANTS MaxLen, NoReset,
+          SpliceLimit, \* how deep splices may nest (parser.yy: every %( %) is parsed by a parser of its own on the C
+                       \* stack, started from inside the lexer of the enclosing one; max_subquery_depth - 1 = 255)
           Tok          \* the alphabet of this run, a subset of {"Q", "PL", "PR", "L", "R", "X"}
 
 -----------------------------------------------------------------------------
@@ -50,7 +52,8 @@ PartsEnds(w, i, d) ==
     (IF i > Len(w) THEN {}
      ELSE CASE w[i] \in {"X", "L", "R"} -> PartsEnds(w, i + 1, d)
             [] w[i] = "PR" -> IF d = 0 THEN PartsEnds(w, i + 1, d) ELSE {}
-            [] w[i] = "PL" -> UNION {PartsEnds(w, k + 1, d) : k \in {k \in PEnds(w, i + 1, d + 1) : k <= Len(w) /\ w[k] = "PR"}}
+            [] w[i] = "PL" -> IF d + 1 > SpliceLimit THEN {}        \* nested too deeply: rejected, not a crash
+                              ELSE UNION {PartsEnds(w, k + 1, d) : k \in {k \in PEnds(w, i + 1, d + 1) : k <= Len(w) /\ w[k] = "PR"}}
             [] OTHER -> {})
 InLanguage(w) == (Len(w) + 1) \in PEnds(w, 1, 0)
 
@@ -84,16 +87,19 @@ LexStr(w, i, ins, bodies, parts) ==
 
 \* the parser over the token stream, strings through the lexer above, splice bodies through
 \* parse_subquery (the same parser on the collected text)
-RECURSIVE MEnds(_, _), MItemEnds(_, _), MAccept(_)
-MEnds(w, i) == {i} \cup UNION {MEnds(w, j) : j \in MItemEnds(w, i)}
-MItemEnds(w, i) ==
+\* d: the number of parsers already on the C stack below this one, less one (subquery_depth - 1)
+RECURSIVE MEnds(_, _, _), MItemEnds(_, _, _), MAcceptD(_, _)
+MEnds(w, i, d) == {i} \cup UNION {MEnds(w, j, d) : j \in MItemEnds(w, i, d)}
+MItemEnds(w, i, d) ==
     IF i > Len(w) THEN {}
     ELSE CASE w[i] = "X" -> {i + 1}
-           [] w[i] = "L" -> {k + 1 : k \in {k \in MEnds(w, i + 1) : k <= Len(w) /\ w[k] = "R"}}
+           [] w[i] = "L" -> {k + 1 : k \in {k \in MEnds(w, i + 1, d) : k <= Len(w) /\ w[k] = "R"}}
            [] w[i] = "Q" -> LET s == LexStr(w, i + 1, FALSE, <<>>, <<>>) IN
-                            IF s.ok /\ (\A b \in 1..Len(s.bodies) : MAccept(s.bodies[b])) THEN {s.end} ELSE {}
+                            IF s.ok /\ (Len(s.bodies) > 0 => d + 1 <= SpliceLimit)
+                                    /\ (\A b \in 1..Len(s.bodies) : MAcceptD(s.bodies[b], d + 1)) THEN {s.end} ELSE {}
            [] OTHER -> {}
-MAccept(w) == (Len(w) + 1) \in MEnds(w, 1)
+MAcceptD(w, d) == (Len(w) + 1) \in MEnds(w, 1, d)
+MAccept(w) == MAcceptD(w, 0)
 
 \* the first lexer-level failure met when the whole text is lexed from the start, if any:
 \* "none" | "unterminated" | "toofew" | "toomany"  (the tokeniser runs ahead of the parser)
